@@ -5,7 +5,7 @@ import pyspec
 from . import C01, common
 
 ID = "C03"
-LEVEL = "other"
+LEVEL = "proof"
 RULE = ("FMA over operand triples: products needing len(x)+len(y) words, u 1..60 digits above/below the product, massive "
         "cancellation (u = -round(x*y), u = -(x*y) exactly), sticky-only u, boundary-directed ties of the exact x*y+u, all operand "
         "classes, all 15 aliasing shapes of (z,x,y,u), receivers that are Inf/zero/buffer-less, six modes, precisions 0..100; "
